@@ -53,6 +53,21 @@ def to_real(t):
     return z3.ToReal(t) if t.sort() == z3.IntSort() else t
 
 
+CANON = [TNone(), TBool(), TInt(), TReal(), TStr()]
+
+
+def to_dyn(v):
+    """Scalar value as a canonical dynamic value."""
+    if isinstance(v, VDyn):
+        return v
+    zero = [VNone(), VBool(False), VInt(0), VReal(0), VStr("")]
+    idx = {VNone: 0, VBool: 1, VInt: 2, VReal: 3, VStr: 4}.get(type(v))
+    if idx is None:
+        return None
+    alts = [(CANON[i], v if i == idx else zero[i]) for i in range(5)]
+    return VDyn(z3.IntVal(idx), alts, "")
+
+
 class Obligation:
     def __init__(self, name, kind, hyps, goal, where="", meta=None):
         self.name, self.kind, self.hyps, self.goal, self.where = name, kind, list(hyps), goal, where
@@ -88,6 +103,7 @@ class Frame:
 class State:
     def __init__(self):
         self.pc = []
+        self.axioms = []
         self.heap = {}
         self.frames = []  # call stack of Frame
         self.status = "run"  # run | return | raise | break | continue
@@ -103,6 +119,7 @@ class State:
     def clone(self):
         s = State()
         s.pc = list(self.pc)
+        s.axioms = list(self.axioms)
         s.heap = dict(self.heap)
         memo = {}
         s.frames = [f.clone(memo) for f in self.frames]
@@ -115,6 +132,9 @@ class State:
         s.fresh_roots = set(self.fresh_roots)
         s.depth = self.depth
         return s
+
+    def hyps(self):
+        return list(self.axioms) + list(self.pc)
 
     @property
     def frame(self):
@@ -309,18 +329,22 @@ class Exec:
         for p in st.pc:
             if p.eq(c):
                 return True
-        key = (tuple(p.get_id() for p in st.pc), c.get_id())
+        key = (tuple(p.get_id() for p in st.pc), len(st.axioms), c.get_id())
         cache = self.ctx.decide_cache
         if key in cache:
-            return cache[key]
+            return cache[key][0]
         s = z3.Solver()
         s.set("timeout", int(self.ctx.config.get("decide_timeout_ms", 1500)))
+        if st.axioms:
+            s.set("smt.mbqi", False)
+        for p in st.axioms:
+            s.add(p)
         for p in st.pc:
             s.add(p)
         s.add(z3.Not(c))
         self.ctx.solver_calls += 1
         r = s.check() == z3.unsat
-        cache[key] = r
+        cache[key] = (r, list(st.pc), c)  # keep the ASTs alive: z3 recycles ids of freed terms
         return r
 
     def decide(self, st, c):
@@ -343,7 +367,7 @@ class Exec:
         if z3.is_true(goal):
             # still count trivially true obligations? keep them: they are real obligations, discharged syntactically
             pass
-        self.ctx.obls.append(Obligation(name, kind, st.pc, goal, where, meta))
+        self.ctx.obls.append(Obligation(name, kind, st.hyps(), goal, where, meta))
 
     def where(self, node, st):
         fi = st.frame.finfo
@@ -424,6 +448,8 @@ class Exec:
         x = self.resolve(st, ref)
         if isinstance(x, H):
             return self.canon(st, ref)
+        if st.rec and ref.path and ref.path[-1][0] == "f" and ref.root not in st.rec[-1].fresh:
+            st.rec[-1].reads.append((self.canon(st, ref), None, t_and(*st.pc[st.rec[-1].pc_len:])))
         return self.force(st, x)
 
     def force(self, st, v):
@@ -443,19 +469,24 @@ class Exec:
             return self.force(st, inner)
         if isinstance(v.ty, TUnion):
             tag = self.app(v.name + "!tag", z3.IntSort(), v.binders)
-            n = len(v.ty.alts)
-            if (0 <= tag).get_id() not in [p.get_id() for p in st.pc]:
-                st.pc.append(0 <= tag)
-                st.pc.append(tag < n)
-            for i, alt in enumerate(v.ty.alts):
-                if i == n - 1 or self.decide(st, tag == i):
-                    inner = self.mk_abstract(alt, f"{v.name}!as{i}", v.binders)
-                    if isinstance(inner, H):
-                        key = ("lazyroot", v.name, i, tuple(b.get_id() for b in v.binders))
-                        if key not in st.ghost:
-                            st.ghost[key] = self.alloc_named(st, inner, f"{v.name}!as{i}")
-                        return st.ghost[key]
-                    return self.force(st, inner)
+            alts = []
+            allowed = []
+            for i, cty in enumerate(CANON):
+                inner = self.mk_abstract(cty, f"{v.name}!as{i}", v.binders)
+                alts.append((cty, inner))
+                if any(type(a) is type(cty) for a in v.ty.alts):
+                    allowed.append(tag == i)
+            for a in v.ty.alts:
+                if not any(type(a) is type(c) for c in CANON):
+                    raise Unsupported(f"alternative {a} in a Union type")
+            akey = ("unionax", v.name)
+            if akey not in st.ghost:
+                st.ghost[akey] = True
+                xs = [z3.Const(f"ux!{i}", b.sort()) for i, b in enumerate(v.binders)]
+                tg = self.app(v.name + "!tag", z3.IntSort(), tuple(xs))
+                body = t_or(*[tg == i for i, cty in enumerate(CANON) if any(type(a) is type(cty) for a in v.ty.alts)])
+                st.axioms.append(z3.ForAll(xs, body) if xs else body)
+            return VDyn(tag, alts, v.name)
         raise Unsupported("lazy value")
 
     def alloc_named(self, st, h, name):
@@ -646,6 +677,9 @@ class Exec:
             return VLazy(a.ty, a.name, [t_ite(c, x, y) for x, y in zip(a.binders, b.binders)])
         if isinstance(a, VRef) and isinstance(b, VRef) and a.root == b.root and a.path == b.path:
             return a
+        da, db = to_dyn(a), to_dyn(b)
+        if da is not None and db is not None:
+            return VDyn(t_ite(c, da.tag, db.tag), [(ty, self.v_ite(c, x, y)) for (ty, x), (_, y) in zip(da.alts, db.alts)], da.name or db.name)
         # shapes differ: cannot merge symbolically -> fork on the condition
         raise NeedSplit(c)
 
@@ -675,8 +709,72 @@ class Exec:
             raise Unsupported("comparison of constant and symbolic key in concrete dict")
         raise Unsupported("undecidable key comparison in concrete dict")
 
+    def dyn_alts(self, st, v):
+        """Feasible alternatives of a dynamic value under the current path condition."""
+        out = []
+        for i, (ty, a) in enumerate(v.alts):
+            g = v.tag == i
+            if any(p.eq(g) for p in st.pc):
+                return [(g, ty, a)]
+        for i, (ty, a) in enumerate(v.alts):
+            g = v.tag == i
+            if self.implied(st, z3.simplify(z3.Not(g))):
+                continue
+            out.append((g, ty, a))
+        return out
+
+    def dyn_apply(self, st, v, fn):
+        """Apply fn to every feasible alternative and merge the results."""
+        for i, (ty, a) in enumerate(v.alts):
+            g = v.tag == i
+            if any(p.eq(g) for p in st.pc):
+                return fn(a)
+        res = []
+        for i, (ty, a) in enumerate(v.alts):
+            g = z3.simplify(v.tag == i)
+            if z3.is_false(g):
+                continue
+            n = len(st.pc)
+            st.pc.append(g)
+            try:
+                res.append((g, fn(a)))
+            except NeedSplit:
+                # never split below a temporary guard: split on the guard itself first
+                del st.pc[n:]
+                raise NeedSplit(g)
+            except Unsupported:
+                del st.pc[n:]
+                if self.implied(st, z3.simplify(z3.Not(g))):
+                    continue
+                raise
+            except Exception as e:
+                if type(e).__name__ != "PathDone":
+                    raise
+                # this alternative raises a Python exception: fork so that it takes its own path
+                del st.pc[n:]
+                st.status, st.value = "run", None
+                if self.implied(st, z3.simplify(z3.Not(g))):
+                    continue
+                raise NeedSplit(g)
+            finally:
+                del st.pc[n:]
+        if not res:
+            raise Unsupported("dynamic value without feasible alternative (infeasible path)")
+        cur = res[-1][1]
+        for g, r in reversed(res[:-1]):
+            if isinstance(cur, z3.ExprRef) and isinstance(r, z3.ExprRef):
+                cur = t_ite(g, r, cur)
+            else:
+                try:
+                    cur = self.v_ite(g, r, cur)
+                except NeedSplit:
+                    raise NeedSplit(z3.simplify(g))
+        return cur
+
     def truth(self, st, v):
         """z3 Bool: Python truthiness of a value."""
+        if isinstance(v, VDyn):
+            return self.dyn_apply(st, v, lambda a: self.truth(st, a))
         if isinstance(v, VBool):
             return v.t
         if isinstance(v, VInt):
@@ -728,6 +826,10 @@ class Exec:
     def eq(self, st, a, b):
         """z3 Bool for Python a == b."""
         a, b = self.force(st, a), self.force(st, b)
+        if isinstance(a, VDyn):
+            return self.dyn_apply(st, a, lambda x: self.eq(st, x, b))
+        if isinstance(b, VDyn):
+            return self.dyn_apply(st, b, lambda x: self.eq(st, a, x))
         if isinstance(a, VNone) or isinstance(b, VNone):
             return z3.BoolVal(isinstance(a, VNone) and isinstance(b, VNone))
         num = (VInt, VReal, VBool, VLin)
